@@ -18,6 +18,9 @@ import ClairModel.Proofs.Maven
 import ClairModel.Proofs.RhcTag
 import ClairModel.Proofs.Pep440
 
+-- every variable of a property statement is bound explicitly: a misspelt name is an error, not a new variable
+set_option autoImplicit false
+
 namespace ClairModel.Props.C12
 open ClairModel ClairModel.Order
 
